@@ -29,6 +29,10 @@ pub fn any_workbook_with(max_sheets: usize, furniture: bool, states: bool) -> Wo
                                  style: if i == 0 { Some(any_i32()) } else { None } }];
             ws.rows = vec![Row { r: any_row_index(), height: FIXED_W[i + 1], custom_format: any_bool(), custom_height: any_bool(),
                                  s: any_i32(), hidden: any_bool() }];
+            if i == 0 {
+                // one hyperlink at a symbolic cell
+                ws.links.insert((any_row_index(), any_col_index()), Link::Internal { location: "L0".to_string(), tooltip: None });
+            }
             ws.frozen_rows = any_i32_in(0, LAST_ROW - 1);
             ws.frozen_columns = any_i32_in(0, LAST_COLUMN - 1);
             ws.show_grid_lines = any_bool();
@@ -99,11 +103,12 @@ fn apply_op(um: &mut UserModel, k: u8, sheet: u32, a: i32, b: i32, w: f64, flag:
         14 => um.insert_columns(sheet, a, b),
         15 => um.delete_rows(sheet, a, b),
         16 => um.delete_columns(sheet, a, b),
-        17 => um.move_rows_action(sheet, a, 1, b),
-        _ => um.move_columns_action(sheet, a, 1, b),
+        17 => um.move_rows_action(sheet, a, if flag { 2 } else { 1 }, b),
+        18 => um.move_columns_action(sheet, a, 1, b),
+        _ => um.duplicate_sheet(sheet),
     }
 }
-const NOPS: u8 = 19;
+const NOPS: u8 = 20;
 
 /// arguments for which the operation is meant to succeed, with small spans (stated bound)
 fn valid_args(k: u8, nsheets: usize) -> (u32, i32, i32, f64, bool) {
@@ -128,7 +133,7 @@ fn valid_args(k: u8, nsheets: usize) -> (u32, i32, i32, f64, bool) {
 }
 
 fn undo_step(k: u8, id_undo: &'static str, id_redo: &'static str, id_sel: &'static str) {
-    let sheet_op = k >= 8 && k <= 12;
+    let sheet_op = (k >= 8 && k <= 12) || k == 19;
     let mut um = if sheet_op { any_user_model(3, true, true) } else { any_user_model(2, true, false) };
     let n = um.model.workbook.worksheets.len();
     let (sheet, a, b, w, flag) = valid_args(k, n);
@@ -167,6 +172,7 @@ pub fn h_c01_delete_rows() { undo_step(15, "C01.delete_rows.undo", "C02.delete_r
 pub fn h_c01_delete_columns() { undo_step(16, "C01.delete_columns.undo", "C02.delete_columns.redo", "C28.delete_columns.selection"); reach("C01.delete_columns"); }
 pub fn h_c01_move_rows() { undo_step(17, "C01.move_rows.undo", "C02.move_rows.redo", "C28.move_rows.selection"); reach("C01.move_rows"); }
 pub fn h_c01_move_columns() { undo_step(18, "C01.move_columns.undo", "C02.move_columns.redo", "C28.move_columns.selection"); reach("C01.move_columns"); }
+pub fn h_c01_duplicate_sheet() { undo_step(19, "C01.duplicate_sheet.undo", "C02.duplicate_sheet.redo", "C28.duplicate_sheet.selection"); reach("C01.duplicate_sheet"); }
 
 // ------------------------------------------------------------------------------------- C04
 
@@ -266,7 +272,7 @@ pub fn h_c02_history_cursor() {
 /// a second model of the same workbook that applies the primary's outgoing queue entry by entry - the loop of
 /// `apply_external_diffs`, with the bitcode encoding of the queue cut out - shows the same observables
 fn replica_step(k: u8, id: &'static str) {
-    let sheet_op = k >= 8 && k <= 12;
+    let sheet_op = (k >= 8 && k <= 12) || k == 19;
     let wb = if sheet_op { any_workbook_with(3, true, true) } else { any_workbook_with(2, true, false) };
     let mut primary = user_model_paused(wb.clone());
     let mut replica = user_model_paused(wb);
@@ -274,18 +280,20 @@ fn replica_step(k: u8, id: &'static str) {
     let (sheet, a, b, w, flag) = valid_args(k, n);
     let (x, y) = (any_col_index(), any_row_index());
     if apply_op(&mut primary, k, sheet, a, b, w, flag).is_err() { return; }
-    // optionally undo it, optionally redo that
-    let tail = any_u8();
-    assume(tail < 3);
-    if tail >= 1 { if primary.undo().is_err() { return; } }
-    if tail >= 2 { if primary.redo().is_err() { return; } }
-    let queue = primary.send_queue.clone();
-    let mut ok = true;
-    for q in queue {
-        let r = if matches!(q.r#type, crate::user_model::history::DiffType::Redo) { replica.apply_diff_list(&q.list) } else { replica.apply_undo_diff_list(&q.list) };
-        ok &= r.is_ok();
+    // schedules: 0 op|flush   1 op,undo|flush   2 op|flush|undo|flush   3 op,undo,redo|flush
+    let sched = any_u8();
+    assume(sched < 4);
+    let mut applied_early = true;
+    if sched == 2 {
+        let bytes = primary.flush_send_queue();
+        applied_early = replica.apply_external_diffs(&bytes).is_ok();
     }
-    check(id, ok && obs_eq(&primary.model.workbook.worksheets, &replica.model.workbook.worksheets, x, y));
+    if sched >= 1 { if primary.undo().is_err() { return; } }
+    if sched == 3 { if primary.redo().is_err() { return; } }
+    // the replica receives what the primary flushed, through the real flush_send_queue / apply_external_diffs
+    let bytes = primary.flush_send_queue();
+    let applied = replica.apply_external_diffs(&bytes).is_ok();
+    check(id, applied_early && applied && obs_eq(&primary.model.workbook.worksheets, &replica.model.workbook.worksheets, x, y));
 }
 pub fn h_c03_columns_width() { replica_step(0, "C03.columns_width.converges"); reach("C03.columns_width"); }
 pub fn h_c03_rows_height() { replica_step(1, "C03.rows_height.converges"); reach("C03.rows_height"); }
